@@ -59,15 +59,22 @@ def attrItems (fx : Fixes) (R : Reserved) : NsStack → List OAttr → List Item
     let r3 := attrItems fx R r2.2 as
     (r1.2.1 ++ r2.1 ++ Item.attr r1.1 a.name a.value :: r3.1, r3.2)
 
+/-- `xml_default_ns_in_scope(pctx)` (F300): the innermost default-namespace entry is not the empty string -/
+def defaultInScope (st : NsStack) : Bool :=
+  match findDefault st with
+  | some u => !u.isEmpty
+  | none => false
+
 /-- the default namespace of the element: `if (node->name.prefix || node->name.module_ns) xml_print_ns_opaq(…,
-    LYXML_PREFIX_DEFAULT)`, nothing without module_ns -/
-def nodeDefault (st : NsStack) : Option Bytes → List Item × NsStack
+    LYXML_PREFIX_DEFAULT)`; without module_ns nothing — or, since the repair of F300, `else if (… xml_default_ns_in_scope(pctx))
+    xml_print_ns(pctx, "", NULL, 0)` -/
+def nodeDefault (fx : Fixes) (st : NsStack) : Option Bytes → List Item × NsStack
   | some u => nsDefault st u
-  | none => ([], st)
+  | none => if fx.undeclare && defaultInScope st then nsDefault st [] else ([], st)
 
 /-- `xml_print_opaq_open` after `<name`: the default namespace of the element, then the attributes -/
 def openItems (fx : Fixes) (st : NsStack) (ns : Option Bytes) (valPfx : PfxData) (attrs : List OAttr) : List Item × NsStack :=
-  let r0 := nodeDefault st ns
+  let r0 := nodeDefault fx st ns
   let r1 := attrItems fx (reservedOf valPfx attrs) r0.2 attrs
   (r0.1 ++ r1.1, r1.2)
 
